@@ -338,7 +338,13 @@ func files(t *T) {
 		case sec == ach.COR:
 			o.Categories = []string{ach.CategoryNOC}
 			o.MaxEntries = 6
-		case sec == ach.IAT || sec == ach.ENR || sec == ach.DNE:
+		case sec == ach.ENR || sec == ach.DNE:
+			if (i/8)%2 == 1 {
+				// the ENR / DNE batch among batches of other classes, at any index of the file
+				o.SECs = []string{sec, ach.PPD, ach.CTX, gen.Pick(r, []string{ach.ENR, ach.DNE, ach.CCD})}
+				o.MinBatches, o.MaxBatches = 2, 5
+			}
+		case sec == ach.IAT:
 		case i%3 == 0:
 			o.Categories = []string{ach.CategoryForward, ach.CategoryReturn}
 		}
